@@ -356,3 +356,46 @@ def same_state(c1, c2, max_branches=256):
     if regs_of(c1)[:2] != regs_of(c2)[:2]:
         return False
     return dists_equal(state_distribution(c1, max_branches), state_distribution(c2, max_branches))
+
+
+# ------------------------------------------------------------------------------------------------ shrinking
+def shrink_list(items, fails, budget=150):
+    """greedy delta-debugging on a list: drop chunks, then single elements, while `fails(candidate)` stays true"""
+    items = list(items)
+    n_calls = 0
+    chunk = max(1, len(items) // 2)
+    while chunk >= 1 and n_calls < budget:
+        i = 0
+        progressed = False
+        while i < len(items) and n_calls < budget:
+            cand = items[:i] + items[i + chunk:]
+            n_calls += 1
+            if len(cand) < len(items) and fails(cand):
+                items = cand
+                progressed = True
+            else:
+                i += chunk
+        if chunk == 1 and not progressed:
+            break
+        chunk = chunk // 2 if chunk > 1 else (1 if progressed else 0)
+    return items
+
+
+def simplify_ops(ops, fails, budget=60):
+    """shorten wrappers element by element while the failure persists"""
+    ops = list(ops)
+    n = 0
+    for i, t in enumerate(list(ops)):
+        if t[0] == "wrap" and len(t[1]) > 1:
+            gs = list(t[1])
+            j = 0
+            while j < len(gs) and len(gs) > 1 and n < budget:
+                cand_gs = gs[:j] + gs[j + 1:]
+                cand = ops[:i] + [("wrap", tuple(cand_gs), t[2])] + ops[i + 1:]
+                n += 1
+                if fails(cand):
+                    gs = cand_gs
+                    ops = cand
+                else:
+                    j += 1
+    return ops
